@@ -7,11 +7,12 @@ PROP = dict(
                   "Layer A abstract terminal (ATerm.writes logs the cell every payload is addressed to); same model and correspondence as C01",
                   "Layer B: the same simulation as C01 (Props/C01B) relates ATerm.writes-carrying abstract terminals to the byte-level emulator (cells not addressed keep their emulator contents: Rep is preserved cell by cell); stamps themselves are not part of Rep",
                   "oracle: per-cell write stamps of the Lean ECMA-48 reference emulator fed with the implementation's bytes"],
-    assumptions=["same domain as C01 (no AttrInvalid styles, narrow Fill runes, entries without the corner trick for the theorems)",
+    assumptions=["two drawCell variants are modelled (DrawCfg.guardLocked; default = Tcell.currentGuardsLockedNeighbour): the history theorems show_writes_only_dirty / idle_show / locked_never_addressed / unlock_repaints are proved for the pinned variant (hct : c.Plain), locked_never_painted_partial for the repaired variant (fixes/C13-wide-left-of-locked.patch); the correspondence follows the tree under test (harness probe lockGuardSuffix -> '+lg' on case lines)",
+                 "same domain as C01 (no AttrInvalid styles, narrow Fill runes, entries without the corner trick for the theorems)",
                  "a Sync (clear screen) or a resize legitimately repaints everything, locked cells included"],
 )
 META = dict(
     technique="Lean 4 proof over all draw histories that every payload command of a Show is addressed to a cell that was dirty and visited (frame theorem), idle Show writes nothing, locked cells are never addressed + byte-exact correspondence + write stamps of the reference emulator",
-    text="show_writes_only_dirty, idle_show_writes_nothing, locked_never_addressed, unlock_repaints (partial: Layer A, entries without the corner trick) are proved for every history. The refuted clause (a wide rune left of a locked cell paints over it) is proved as a witness and reproduced on the real code by the emulator's stamps; it is a listed known finding.",
+    text="show_writes_only_dirty, idle_show_writes_nothing, locked_never_addressed, unlock_repaints (partial: Layer A, entries without the corner trick) are proved for every history. The refuted clause (a wide rune left of a locked cell paints over it) is proved as a witness and reproduced on the real code by the emulator's stamps; it is a listed known finding. For the repaired drawCell (guard on the locked neighbour + re-dirtying on unlock) locked_never_painted_partial (no payload of a draw pass, wide glyphs included, covers a locked cell; every history/state) and the refutation of the witness (wide_left_of_locked_kept_repaired, unlock_repaints_wide_repaired) are proved; the Layer-A invariant has not been carried to that variant yet.",
     note="Trusted as C01. 'Written' is judged by the reference emulator's per-cell stamps on the implementation's bytes.",
 )
